@@ -147,6 +147,30 @@ Theorem tan_replay_ignores_torn_tail_partial : forall ck lognum, (forall b, ck b
 Proof. exact tan_replay_ignores_torn_tail_fits. Qed.
 Print Assumptions tan_replay_ignores_torn_tail_partial.
 
+(* TAN SAVE PATH, fsync and error rules (the shape of the code is regenerated into
+   Gen/GenC10.v; these obligations stop checking when it changes, the black-box crash
+   search and the I/O error injection (tanio) then look for a failing input):
+   - multiplexed mode: the shared log file is fsynced at the end of a SaveRaftState call if
+     ANY update of the call needs it (entries, snapshot record, term/vote change), whatever
+     the position of that update in the batch;
+   - regular mode: every update that needs it is fsynced;
+   - an error of the log rollover fails the write (and with it the save). *)
+Theorem tan_batch_fsync_if_any_update_needs_it : forall needs,
+  In true needs -> tan_batch_sync needs = true.
+Proof. exact tan_batch_sync_any. Qed.
+Print Assumptions tan_batch_fsync_if_any_update_needs_it.
+
+Theorem tan_regular_fsync_every_update_that_needs_it : forall needs, tan_seq_sync needs = needs.
+Proof. exact tan_seq_sync_each. Qed.
+Print Assumptions tan_regular_fsync_every_update_that_needs_it.
+
+Theorem tan_rollover_error_fails_the_save : forall w, tan_write_result true w = false.
+Proof. exact tan_rollover_error_fails. Qed.
+Print Assumptions tan_rollover_error_fails_the_save.
+
+Example c10_example_tan_batch : tan_batch_sync [true; false; false] = true /\ tan_batch_sync [false; false] = false.
+Proof. vm_compute. split; reflexivity. Qed.
+
 Example c10_example_tan :
   let ck := fun b : bytes => 7 + nlen b in
   fits [[1; 2; 3]; []; [9]] /\
